@@ -202,24 +202,28 @@ def HALFN(n, f):
 def segment_rules(chk, repo):
     f = repo.func('segmented.hex_ring')
     fors = [n for n in ast.walk(f.node) if isinstance(n, ast.For)]
-    ok = False
-    det = 'expected `for i in range(6): for j in range(radius): results.append(hex)`'
+    ok = None
+    det = 'undecided: not the two nested loops over the six sides and the ring radius'
     if len(fors) == 2:
         outer, inner = sorted(fors, key=lambda n: n.lineno)
         o_it = ast.unparse(outer.iter).replace(' ', '')
         i_it = ast.unparse(inner.iter).replace(' ', '')
+        six = o_it == 'range(6)'
+        if isinstance(outer.iter, ast.Name):
+            g = f.module.globals.get(outer.iter.id)
+            six = isinstance(g, (ast.List, ast.Tuple)) and len(g.elts) == 6
+            o_it = f'{outer.iter.id} ({len(g.elts) if isinstance(g, (ast.List, ast.Tuple)) else "?"} directions)'
         appends = [n for n in ast.walk(inner) if isinstance(n, ast.Call) and getattr(n.func, 'attr', '') == 'append']
         direct = [s for s in inner.body if isinstance(s, ast.Expr) and isinstance(s.value, ast.Call)
                   and getattr(s.value.func, 'attr', '') == 'append']
-        ok = o_it == 'range(6)' and i_it == 'range(radius)' and len(appends) == 1 and len(direct) == 1 \
-            and inner in outer.body
+        ok = six and i_it == 'range(radius)' and len(appends) == 1 and len(direct) == 1 and inner in outer.body
         det = f'outer {o_it}, inner {i_it}, {len(appends)} append(s) of which {len(direct)} unconditional'
     chk.ob('C20-g', 'structural', f.key, 'exactly one hexagon per (side, step): 6*radius per ring', ok, det, f.loc())
     f = repo.func('segmented.hex_segments')
     _, paths, _ = analyse(repo, f)
     fors = sorted([n for n in ast.walk(f.node) if isinstance(n, ast.For)], key=lambda n: n.lineno)
-    ok_r = ok_s = False
-    if len(fors) == 2:
+    ok_r = ok_s = None
+    if len(fors) == 2 and fors[1] in ast.walk(fors[0]) and isinstance(fors[0].target, ast.Name):
         ring, inner = fors
         ok_r = ast.unparse(ring.iter).replace(' ', '') == 'range(1,rings+1)' and \
             ast.unparse(inner.iter).replace(' ', '') == f'hex_ring({ring.target.id})'
@@ -230,26 +234,34 @@ def segment_rules(chk, repo):
         guards = [s for s in inner.body if isinstance(s, ast.If)]
         g_ok = len(guards) == 1 and incs and ast.unparse(guards[0].test).replace(' ', '') == f'{incs[0].target.id}notindrop' \
             and not guards[0].orelse
-        ok_s = len(incs) == 1 and len(all_incs) == 1 and g_ok
+        ok_s = len(incs) == 1 and len(all_incs) == 1 and bool(g_ok)
     hx = []
     for p in paths:
         for e in p.calls('shape.hexagon'):
             if id(e.node) not in {id(x.node) for x in hx}:
                 hx.append(e)
-    sib = len(hx) == 2
-    det = ''
-    for e in hx:
-        b = e.bound
-        good = b.get('rotate') == S('rotate') and b.get('antialias') == S('antialias') and b.get('radius') == S('seg_radius')
-        sib = sib and good and b.get('shape') == hx[0].bound.get('shape')
-        if not good:
-            det = f'hexagon(rotate={fmt(b.get("rotate"))}, antialias={fmt(b.get("antialias"))}, radius={fmt(b.get("radius"))}) at {e.loc()}'
+    sib = None
+    det = f'undecided: {len(hx)} hexagon call site(s) visible'
+    if len(hx) == 2:
+        sib = True
+        for e in hx:
+            b = e.bound
+            good = b.get('rotate') == S('rotate') and b.get('antialias') == S('antialias') and b.get('radius') == S('seg_radius')
+            sib = sib and good and b.get('shape') == hx[0].bound.get('shape')
+            if not good:
+                det = f'hexagon(rotate={fmt(b.get("rotate"))}, antialias={fmt(b.get("antialias"))}, radius={fmt(b.get("radius"))}) at {e.loc()}'
+    elif len(hx) == 1:
+        b = hx[0].bound
+        sib = b.get('rotate') == S('rotate') and b.get('antialias') == S('antialias') and b.get('radius') == S('seg_radius')
+        det = 'single hexagon call site'
     chk.ob('C20-g', 'N-sibling', f.key, 'centre and ring segments are drawn with the same radius, orientation and antialiasing',
-           sib, det or f'{len(hx)} hexagon call site(s)', f.loc())
+           sib, det, f.loc())
     chk.ob('C20-g', 'structural', f.key, 'rings 1..k are visited, each through hex_ring(ring)', ok_r,
-           '' if ok_r else 'ring loop is not range(1, rings+1) over hex_ring(ring)', f.loc())
+           '' if ok_r else ('ring loop is not range(1, rings+1) over hex_ring(ring)' if ok_r is False else
+                            'undecided: ring/segment loops not in the expected nested form'), f.loc())
     chk.ob('C20-g', 'structural', f.key, 'running index incremented once per hexagon; only `drop` skips a segment', ok_s,
-           '' if ok_s else 'segment counter / drop guard not of the expected form', f.loc())
+           '' if ok_s else ('segment counter / drop guard not of the expected form' if ok_s is False else
+                            'undecided: ring/segment loops not in the expected nested form'), f.loc())
 
 
 def run(chk, repo, tier):
@@ -262,7 +274,7 @@ def run(chk, repo, tier):
     chk.clause('C20-f', 'drawn shapes lie in [0,1] and are binary without antialiasing', 8)
     chk.clause('C20-g', 'hex_ring yields 6*radius hexagons; hex_segments counts 1+3k(k+1)-|drop|', 3)
     chk.clause('C20-h', 'hexagonal grid: axial -> cartesian map, (row, col) = (-y, x), pitch seg_radius + seg_gap/2', 4)
-    chk.clause('C20-s', 'no helper mixes two different axes of one array (package-wide shape inference over util/helper/shape/segmented)', 4)
+    chk.clause('C20-s', 'no helper mixes two different axes of one array (package-wide shape inference over util/helper/shape/segmented)', 1)
     chk.not_decided += ['translation/half-turn symmetry of drawn shapes, equal areas, non-overlap, border clearance']
     pad_rules(chk, repo)
     helper_rules(chk, repo)
